@@ -179,12 +179,13 @@ def run(pid, tier, seed, ctx, modes_for, known_carve=None, witnesses=2):
                 group_ok = False
         if not group_ok:
             continue
-        if th['result'] != 'unsat':
-            why = 'K too small (an execution is still running after K steps)' if th['result'] == 'sat' else f'threshold query {th["result"]}'
-            for r in rs:
-                if r['spec']['mode'] not in ('threshold', 'reach'):
-                    out['inconclusive'].append(f'{bmcrun.label(r["spec"])}: {why}')
-            continue
+        threshold_ok = th['result'] == 'unsat'
+        why = ''
+        if not threshold_ok:
+            # `unsat` verdicts are claims about *all* executions and need the completeness threshold; `sat` verdicts are concrete
+            # schedules and stand on their own (they are replayed on the real code below)
+            why = ('K too small: an execution is still running after K steps (e.g. an unfair schedule of a polling loop)' if th['result'] == 'sat'
+                   else f'threshold query {th["result"]}')
         if reach['result'] != 'sat':
             out['harness_errors'].append(f'vacuous: {bmcrun.label(reach["spec"])} is {reach["result"]} (no complete run exists in the model)')
             continue
@@ -204,12 +205,16 @@ def run(pid, tier, seed, ctx, modes_for, known_carve=None, witnesses=2):
             out['transitions'] += ncmd * g['K']
             sample = dict(query=bmcrun.label(r['spec']), verdict=r['result'], solver_s=r.get('secs'))
             if mode in ('threshold', 'reach'):
-                out['discharged'] += 1
+                if mode == 'reach' or threshold_ok:
+                    out['discharged'] += 1
                 if len(out['samples']) < 14:
                     out['samples'].append(sample)
                 continue
             if r['result'] == 'unsat':
-                out['discharged'] += 1
+                if threshold_ok:
+                    out['discharged'] += 1
+                else:
+                    out['inconclusive'].append(f'{bmcrun.label(r["spec"])}: unsat within K, but {why}')
             elif r['result'] == 'sat':
                 model = r['model']
                 status, text = replay_model(g['system'], g['backend'], mode, model)
